@@ -78,7 +78,7 @@ def run(cx):
                     if ob.path not in (HC + "emit_sync_frame", HC + "emit_ack_frames::{closure#0}", HC + "emit_data_frames::{closure#0}"):
                         inst.violation(ob.path, "FrameSink::send", "a frame is sent from a site that is not paired with a credit debit", at=ob.span_at(loc))
 
-    with cx.instance("C13.b", "T1 GUARD", "a new frame needs non-negative credit; extending a frame needs credit covering its current size", floor=6) as inst:
+    with cx.instance("C13.b", "T1 GUARD", "a new frame needs non-negative credit; extending a frame needs credit covering its current size", floor=4) as inst:
         b = R.body(HC + "emit_sync_frame")
         cx.guard(inst, b, call_sites(b, "FrameSink::send"), [[r"le\(0,arg1\.flush_alloc\)"]], construct="sync send without credit")
         pd = R.body("AckFrameEmitter::push_dud")
@@ -163,7 +163,7 @@ def ceiling_clamp(cx, iid):
                     continue
                 n += 1
                 cx.followed_by(inst, b, [(l, "send_rate = " + show(b.rvalue_expr(node["rv"]))[:70])], clamps, "send_rate write without ceiling clamp", "send_rate = min(send_rate, max_send_rate)")
-        if n < 6:
+        if n < 4:
             inst.violation("half_connection::send_rate::SendRateComp", "send_rate writes", "fewer send_rate writes found than counted by hand (anchor)")
         # constructor: initial rate below ceiling is not required by the property (ceilings >= one frame/s)
         for fn, peer in (("client::Client::handle_handshake_syn_ack", r"arg2\.max_receive_rate"), ("server::Server::handle_handshake_ack", r"[\w.@\[\]():,]*remote_max_receive_rate")):
